@@ -16,7 +16,7 @@ PROPERTY = "C12"
 LEVEL = "exploration"
 TECHNIQUE = ("bounded exhaustive enumeration of (function body, return convention, call pattern, naming scheme): bodies are "
              "terms of the program space over 1..4 parameters (incl. bodies that ignore a parameter), return conventions "
-             "array/tuple/dict, call patterns positional/keyword/mixed, one definition called twice, calls nested to "
+             "array/tuple/dict, call patterns positional/keyword/mixed with the keywords written in declaration, reversed and rotated order, one definition called twice, calls nested to "
              "depth 3, a call result as argument of another call, caller placeholders named like the generated parameter "
              "placeholders / like the keywords / unrelated; each traced with trace_call, evaluated by the reference "
              "evaluator, inlined, re-evaluated and compiled")
@@ -88,7 +88,7 @@ def caller_args(param, scheme, slot):
 
 
 NAMINGS = ("unrelated", "generated", "kwlike", "keyword")
-PATTERNS = ("pos", "kw", "mixed")
+PATTERNS = ("pos", "kw", "mixed", "kw-rev", "kw-rot", "mixed-rev")
 RETS = ("array", "tuple", "dict")
 EXTRAS = ("single", "arg-expr", "twice", "nested2", "nested3", "chain", "same-arg-twice")
 
@@ -105,6 +105,9 @@ def enumerate_cases(tier, seed):
                 continue
             for pat in PATTERNS:
                 if pat == "mixed" and len(params) < 2:
+                    continue
+                nkw = len(params) - {"pos": len(params), "kw": 0, "mixed": max(1, len(params) // 2)}[pat.split("-")[0]]
+                if pat.endswith(("-rev", "-rot")) and (nkw < 2 or (pat.endswith("-rot") and nkw < 3)):
                     continue
                 for nm in NAMINGS:
                     for ex in EXTRAS:
@@ -142,9 +145,15 @@ def make_fn(params, outs, ret, kwnames):
 def call(fn, params, args, pattern):
     import pytato as pt
     n = len(params)
-    npos = {"pos": n, "kw": 0, "mixed": max(1, n // 2)}[pattern]
-    kw = {p[1].lower(): a for p, a in zip(params[npos:], args[npos:])}
-    return pt.trace_call(fn, *args[:npos], **kw)
+    base = pattern.split("-")[0]
+    npos = {"pos": n, "kw": 0, "mixed": max(1, n // 2)}[base]
+    items = [(p[1].lower(), a) for p, a in zip(params[npos:], args[npos:])]
+    # the order in which the keywords are written at the call site is the caller's choice
+    if pattern.endswith("-rev"):
+        items.reverse()
+    elif pattern.endswith("-rot"):
+        items = items[1:] + items[:1]
+    return pt.trace_call(fn, *args[:npos], **dict(items))
 
 
 def as_list(res, ret):
@@ -234,9 +243,13 @@ def run_case(case):  # noqa: C901
                 top = outer3
             args = [B(a) for a in arg_terms]
             n = len(params)
-            npos = {"pos": n, "kw": 0, "mixed": max(1, n // 2)}[pat]
-            kw = {p[1].lower(): a for p, a in zip(params[npos:], args[npos:])}
-            r = pt.trace_call(top, *args[:npos], **kw)
+            npos = {"pos": n, "kw": 0, "mixed": max(1, n // 2)}[pat.split("-")[0]]
+            items = [(p[1].lower(), a) for p, a in zip(params[npos:], args[npos:])]
+            if pat.endswith("-rev"):
+                items.reverse()
+            elif pat.endswith("-rot"):
+                items = items[1:] + items[:1]
+            r = pt.trace_call(top, *args[:npos], **dict(items))
             results += as_list(r, ret)
             inner_at = [["bin", "add", (["bin", "mul", a, ["py", 0.5]] if ex == "nested3" else a), ["py", 1.0]] for a in arg_terms]
             ref_terms += [["bin", "mul", ["py", 2.0], t] for t in substitute(outs, params, inner_at)]
